@@ -14,6 +14,7 @@ import numpy as np
 from lib import floatq as fq
 from lib import impl
 from props.c01 import offset, cluster
+from sim import pool as simpool
 
 ALLOWED_AXIOMS = []
 TRUSTED = [
@@ -184,6 +185,37 @@ def run(ctx):
             ctx.count(key=(cid, "guard", variant), nontrivial=variant != "same", kind="guard/%s/%s" % (variant, "accepted" if accepted else "refused"))
             shutil.rmtree(str(other.cache_directory), ignore_errors=True)
         shutil.rmtree(str(cat.cache_directory), ignore_errors=True)
+    # ---- parallel loading: patch i must keep its own records, centre and metadata for every completion order
+    impl.set_threads(16)
+    for rep in range(ctx.n(4, 24)):
+        ncent = rng.choice([3, 4, 5])
+        cents = [offset(200.0, -30.0, k * 1.5, 0.0) for k in range(ncent)]
+        centers = impl.AngularCoordinates(np.deg2rad(np.asarray(cents)))
+        sizes = [1 + 3 * k for k in range(ncent)]                      # every patch has another size
+        pts = [p for k in range(ncent) for p in cluster(rng, cents[k][0], cents[k][1], sizes[k], 0.3)]
+        w = [rng.randrange(1, 17) / 4.0 for _ in pts]
+        seq = build(ctx, "pseq", pts, w, None, patch_centers=centers)
+        want = [(int(k), int(n), float(sw).hex()) for k, n, sw in zip(seq.keys(), seq.get_num_records(), seq.get_sum_weights())]
+        want_c = seq.get_centers().data.view("u8").tolist()
+        mode = rng.choice(["reverse", "random"])
+        sch = simpool.Schedule(mode, seed=rng.randrange(10 ** 6))
+        with simpool.patched(sch):
+            par = impl.Catalog.from_dataframe(impl.fresh_dir(ctx, "ppar"), impl.make_df({"ra": [p[0] for p in pts], "dec": [p[1] for p in pts], "w": w}),
+                                              ra_name="ra", dec_name="dec", weight_name="w", patch_centers=centers, max_workers=3)
+            re = impl.Catalog(par.cache_directory, max_workers=3)
+        for tag, cat in (("create", par), ("reopen", re)):
+            got = [(int(k), int(n), float(sw).hex()) for k, n, sw in zip(cat.keys(), cat.get_num_records(), cat.get_sum_weights())]
+            ctx.count(key=("parallel", rep, tag, tuple(map(tuple, sch.log[:4]))), nontrivial=True, kind="parallel-load/%s" % tag)
+            if got != want or cat.get_centers().data.view("u8").tolist() != want_c:
+                ctx.fail("c12-parallel-load-mixes-patches", "with 3 workers and completion order %s the patches carry other metadata / centres than sequentially: %s vs %s"
+                         % (sch.log[:3], got, want), dict(cents=cents, sizes=sizes, orders=sch.log[:6], stage=tag), case=("parallel", rep, tag))
+            for k, pid in enumerate(cat.keys()):
+                if len(cat[pid].load_data()) != cat.get_num_records()[k]:
+                    ctx.fail("c12-num-records", "stored number of records differs from the patch data (parallel load)",
+                             dict(patch=int(pid), stage=tag), case=("parallel-n", rep, tag, int(pid)))
+        for c in (seq, par):
+            shutil.rmtree(str(c.cache_directory), ignore_errors=True)
+    impl.set_threads(1)
     # ---- targeted probe: a centre that attracts no object (C12: patches 0..N-1 in order) ----
     cents = [offset(50.0, 20.0, k * 2.0, 0.0) for k in range(3)]
     pts = cluster(rng, cents[0][0], cents[0][1], 4, 0.3) + cluster(rng, cents[2][0], cents[2][1], 4, 0.3)
